@@ -332,8 +332,9 @@ func applyAddPublicKeys(doc document.Document, entry interface{}) (document.Docu
 			// if a key ID already exists, we will just replace the existing key
 			updateKey(newPublicKeys, key)
 		} else {
-			// new key - append it to existing keys
+			// new key - append it to existing keys (and remember it: the same id may come again within this patch)
 			newPublicKeys = append(newPublicKeys, key)
+			existingPublicKeysMap[key.ID()] = key
 		}
 	}
 
@@ -418,8 +419,9 @@ func applyAddServiceEndpoints(doc document.Document, entry interface{}) (documen
 			// if a service ID already exists, we will just replace the existing service
 			updateService(newServices, service)
 		} else {
-			// new service - append it to existing services
+			// new service - append it to existing services (and remember it: the same id may come again within this patch)
 			newServices = append(newServices, service)
+			existingServicesMap[service.ID()] = service
 		}
 	}
 
@@ -491,8 +493,9 @@ func applyAddAlsoKnownAs(doc document.Document, entry interface{}) (document.Doc
 	for _, uri := range addURIs {
 		_, ok := existingURIs[uri]
 		if !ok {
-			// new URI - append it to existing URIs
+			// new URI - append it to existing URIs (and remember it: the same URI may come again within this patch)
 			newURIs = append(newURIs, uri)
+			existingURIs[uri] = true
 		}
 	}
 
